@@ -130,7 +130,9 @@ def u_shutdown_modify(ctx, index):
   log = EffectLog()
   shut = ctx.fresh(z3.RealSort(), 'MAX_UPDATES_PER_SECOND_ON_SHUTDOWN')
   lag = ctx.fresh(z3.RealSort(), 'MIN_TIMESTAMP_LAG')
-  settings = Namespace('settings', {'MAX_UPDATES_PER_SECOND_ON_SHUTDOWN': shut, 'MIN_TIMESTAMP_LAG': lag})
+  settings = Namespace('settings', {'MAX_UPDATES_PER_SECOND_ON_SHUTDOWN': shut, 'MIN_TIMESTAMP_LAG': lag,
+                                    'MAX_UPDATES_PER_SECOND': ctx.fresh(z3.RealSort(), 'MAX_UPDATES_PER_SECOND'),
+                                    'MAX_CREATES_PER_MINUTE': ctx.fresh(z3.RealSort(), 'MAX_CREATES_PER_MINUTE')}, item_access=True)
   # MAX_UPDATES_PER_SECOND_ON_SHUTDOWN has no default: when it is not configured, reading it raises KeyError
   configured = ctx.choose(2, 'ON_SHUTDOWN configured') == 1
   if not configured:
@@ -150,7 +152,16 @@ def u_shutdown_modify(ctx, index):
   ctx.check('C04/shutdownModifyUpdateSpeed/lag_zero', z3.BoolVal(isinstance(l, int) and l == 0) if not z3.is_expr(l) else l == 0)
   for b, name in ((ub, 'UPDATE_BUCKET'), (cb, 'CREATE_BUCKET')):
     ev = log.of(name + '.setCapacityAndFillRate')
-    if b is None or not configured:
+    if b is None:
+      continue
+    if not configured:
+      # no shutdown rate configured: the configured limits stay in force (C20's first sentence)
+      # (being set again to its own configured limits would change nothing)
+      mu, mc = settings.attrs['MAX_UPDATES_PER_SECOND'], settings.attrs['MAX_CREATES_PER_MINUTE']
+      own = (mu, mu) if name == 'UPDATE_BUCKET' else (mc, mc / 60)
+      same = [z3.And(e[1][0] == own[0], e[1][1] == own[1]) for e in ev]
+      ctx.check('C20/shutdownModifyUpdateSpeed/%s_keeps_its_limits_without_a_shutdown_rate' % name,
+                z3.And(*same) if same else z3.BoolVal(True))
       continue
     ok = len(ev) == 1
     ctx.check('C20/shutdownModifyUpdateSpeed/%s_limits_set_once' % name, z3.BoolVal(ok))
